@@ -284,6 +284,7 @@ class Engine(object):
         self.tmpdir = None
         self.nmsg = 0
         self.dead = False
+        self.exhausted_choice = False
         self.jam_seen = None
         self.inner = self._make_store()
         self._build_queue()
@@ -604,6 +605,21 @@ class Engine(object):
             self.do_restart()
         elif kind == 'serve':
             self.do_serve(action[1] if len(action) > 1 else None)
+        elif kind == 'pick':
+            # schedule enumeration: release exactly the k-th pending gate; relay gates fail transiently on the message's
+            # first attempt and succeed afterwards (so every schedule contains one retry round)
+            live = [g for g in self.pending if g.kind != 'wait']
+            k = int(action[1])
+            if k < len(live):
+                g = live[k]
+                spec = None
+                if g.kind == 'relay':
+                    m = self.msgs.get(g.tag)
+                    first = m is not None and m.nattempts <= 1
+                    spec = {'shape': 'map', 'per': ['temp', 'ok'], 'replies': [0]} if first else {'shape': 'none'}
+                self.release(g, spec)
+            else:
+                self.exhausted_choice = True
         elif kind == 'answer':
             self.do_serve(action[1] if len(action) > 1 else None, follow=False)
         elif kind == 'storage':
@@ -897,6 +913,7 @@ def run_history(cfg, actions, owners=None):
             for a in actions:
                 if isinstance(a, list) and a:
                     eng.act(a)
+            pending_before_drain = len([g for g in eng.pending if g.kind != 'wait'])
             eng.drain()
         except RuntimeError as e:
             if 'quiescence watchdog' in str(e):
@@ -904,7 +921,8 @@ def run_history(cfg, actions, owners=None):
             raise
         fails = [(sig, msg) for owner, sig, msg in eng.failures if owners is None or owner in owners]
         labels = set(eng.labels)
-        stats = {'attempts': len(eng.relay_log), 'msgs': len(eng.msgs),
+        stats = {'attempts': len(eng.relay_log), 'msgs': len(eng.msgs), 'pending_now': pending_before_drain,
+                 'exhausted_choice': eng.exhausted_choice,
                  'max_attempts_one_msg': max([m.nattempts for m in eng.msgs.values()] or [0])}
         return fails, labels, stats
     finally:
